@@ -229,14 +229,14 @@ def ev_acq(case):
                     gt_tail = [(1 + z * z) * (b / s_ + g * (a_ + abs(z) * b) / s_) for a_, b in zip(dmu_, dsg_)]
                     # documented form sigma (z F(z) + P(z)), F = (1 + erf(z/sqrt 2))/2 evaluated in doubles: F carries an
                     # ABSOLUTE error ~ eps, so z F + P = h(z) carries (|z| + 1) eps and EI a relative error (|z| + 1) eps / h(z)
-                    if z < -3.0 - 1e-6:
-                        cz, gt = cz_tail, gt_tail
-                    else:
+                    # The statement does not pin where the implementation switches form: the documented form is an
+                    # acceptable evaluation wherever its own rounding error stays below 1e-10 relative (z >~ -3.2);
+                    # below that only the far-tail form's accuracy is accepted.
+                    cz, gt = cz_tail, gt_tail
+                    if hz > 0:
                         cz_ord = (abs(z) + 1) / hz + 2
-                        gt_ord = [cz_ord * (pdf * b + cdf * a_) / (s_ * hz) + a_ / (s_ * hz) for a_, b in zip(dmu_, dsg_)]
-                        if z > -3.0 + 1e-6:
-                            cz, gt = cz_ord, gt_ord
-                        else:  # at the switch either form may legitimately be the one in use
+                        if 16 * EPS * cz_ord <= 1e-10:
+                            gt_ord = [cz_ord * (pdf * b + cdf * a_) / (s_ * hz) + a_ / (s_ * hz) for a_, b in zip(dmu_, dsg_)]
                             cz, gt = max(cz_tail, cz_ord), [max(u, v) for u, v in zip(gt_tail, gt_ord)]
                     iv = 16 * EPS * (cz + abs(np.log(s_)) + abs(lnei))
                     ig = [32 * EPS * v for v in gt]
